@@ -19,6 +19,9 @@ type c07LineDoc struct {
 	text    string
 	blocks  []string // top-level keys in order
 	seqKeys []string // top-level keys holding a block sequence
+	seqLen  map[string]int
+	globMap string // top-level key of a map with pattern-looking keys ("" if none)
+	victim  string // the unique value of the pattern-looking entry of globMap
 	mapKeys []string // top-level keys holding a block map
 }
 
@@ -87,11 +90,33 @@ func c07LinesGen(r *rand.Rand) c07LineDoc {
 		// no comment on the header line of a sequence that an update may empty: `b: # c` followed by a
 		// flow `[]` is the recorded finding C07-flow-collection-after-comment-unparseable, decided by the tree family
 		fmt.Fprintf(&sb, "%s:\n", k)
-		for j := 0; j < 1+r.IntN(3); j++ {
+		n := 1 + r.IntN(3)
+		for j := 0; j < n; j++ {
 			fmt.Fprintf(&sb, "  - %s%s\n", scal(), cm())
 		}
 		d.blocks = append(d.blocks, k)
 		d.seqKeys = append(d.seqKeys, k)
+		if d.seqLen == nil {
+			d.seqLen = map[string]int{}
+		}
+		d.seqLen[k] = n
+	}
+	if r.IntN(3) == 0 {
+		// a map whose keys look like patterns next to keys those patterns would match
+		d.globMap = "hosts"
+		d.victim = "VICTIM"
+		type ent struct{ k, v string }
+		gk := []string{`"*.example.com"`, `"?"`, `"a*"`, `"*"`, `"??"`}[r.IntN(5)]
+		ents := []ent{{"www.example.com", "10"}, {"a", "'x'"}, {"ab", "20"}, {"zz", "plain"}}
+		r.Shuffle(len(ents), func(i, j int) { ents[i], ents[j] = ents[j], ents[i] })
+		ents = ents[:2+r.IntN(3)]
+		pos := r.IntN(len(ents) + 1)
+		ents = append(ents[:pos:pos], append([]ent{{gk, d.victim}}, ents[pos:]...)...)
+		sb.WriteString("hosts:\n")
+		for _, e := range ents {
+			fmt.Fprintf(&sb, "  %s: %s%s\n", e.k, e.v, cm())
+		}
+		d.blocks = append(d.blocks, "hosts")
 	}
 	fmt.Fprintf(&sb, "tail: end%s\n", cm())
 	d.blocks = append(d.blocks, "tail")
@@ -134,7 +159,18 @@ func c07LineCase(w *mon.Worker, r *rand.Rand) mon.Result {
 	if !strings.Contains(d.text, "\n"+src+":") && !strings.HasPrefix(d.text, src+":") {
 		src = "a"
 	}
-	switch r.IntN(7) {
+	if d.globMap != "" && r.IntN(2) == 0 {
+		return c07GlobDelete(d, r)
+	}
+	switch r.IntN(10) {
+	case 7:
+		// a read one past the end of a sequence on the right-hand side: only `tail` changes
+		u = upd{fmt.Sprintf(`.tail = (.%s[%d] // "dflt")`, seq, d.seqLen[seq]), []string{"tail"}}
+	case 8:
+		// the same read inside a selection that matches nothing: nothing changes
+		u = upd{fmt.Sprintf(`(.%s | select(.[%d] == "nope") | .[0]) = "zz"`, seq, d.seqLen[seq]), nil}
+	case 9:
+		u = upd{fmt.Sprintf(`(.["%s"] | select(.zz_missing[0] == 1) | .zz) = 1`, mp), nil}
 	case 0:
 		u = upd{fmt.Sprintf(".%s += .%s | del(.%s[0])", seq, src, seq), []string{seq}}
 	case 1:
@@ -196,6 +232,47 @@ func c07LineCase(w *mon.Worker, r *rand.Rand) mon.Result {
 	}
 	res.Verdict = mon.Held
 	res.Detail = "everything outside the updated block unchanged"
+	return res
+}
+
+// c07GlobDelete: the entry selected BY VALUE is the only line that may disappear, even when its key
+// looks like a pattern that matches its siblings.
+func c07GlobDelete(d c07LineDoc, r *rand.Rand) mon.Result {
+	res := mon.Result{Tags: []string{"family:lines", "lines:glob_delete"}}
+	expr := []string{
+		fmt.Sprintf(`del(.%s[] | select(. == "%s"))`, d.globMap, d.victim),
+		fmt.Sprintf(`del(.. | select(. == "%s"))`, d.victim),
+		fmt.Sprintf(`del(.%s | .[] | select(. == "%s"))`, d.globMap, d.victim),
+	}[r.IntN(3)]
+	res.Case = map[string]any{"text": d.text, "update": expr, "kind": "lines_glob_delete"}
+	res.Sig = fmt.Sprintf("linesglob|%x|%s", hashStr(d.text), expr)
+	base, e1, p1 := yqx.Eval(".", d.text, "yaml", "yaml")
+	got, e2, p2 := yqx.Eval(expr, d.text, "yaml", "yaml")
+	res.Evals += 2
+	if e1 != nil || p1 != nil || e2 != nil || p2 != nil {
+		res.Verdict, res.Detail = mon.Inconclusive, fmt.Sprintf("evaluation failed: %v %v %v %v", e1, p1, e2, p2)
+		return res
+	}
+	res.Nontrivial = true
+	var want []string
+	removed := 0
+	for _, ln := range strings.Split(base, "\n") {
+		if strings.Contains(ln, ": "+d.victim) {
+			removed++
+			continue
+		}
+		want = append(want, ln)
+	}
+	if removed != 1 {
+		res.Verdict, res.Detail, res.Nontrivial = mon.Inconclusive, "victim line not found exactly once in yq's own output", false
+		return res
+	}
+	if strings.Join(want, "\n") != got {
+		res.Verdict = mon.Violated
+		res.Detail = fmt.Sprintf("`%s` must remove the one entry whose value is %s and leave every other line alone\n--- expected (yq . minus that line) ---\n%s--- yq u ---\n%s", expr, d.victim, clipStr(strings.Join(want, "\n"), 900), clipStr(got, 900))
+		return res
+	}
+	res.Verdict, res.Detail = mon.Held, "only the selected entry's line removed"
 	return res
 }
 
